@@ -4,6 +4,7 @@ from typing import Awaitable, Callable, Dict, List, Optional, Tuple, Type, Union
 
 import h2
 import h2.connection
+import h2.errors
 import h2.events
 import h2.exceptions
 import priority
@@ -231,6 +232,15 @@ class H2Protocol:
                 await self._flush()
             elif isinstance(event, StreamClosed):
                 await self._close_stream(event.stream_id)
+                buffer = self.stream_buffers.get(event.stream_id)
+                if buffer is not None and not buffer._complete:
+                    # The stream has closed without ending (e.g. the
+                    # app errored), the client must be told.
+                    await buffer.close()
+                    self.connection.reset_stream(
+                        event.stream_id, h2.errors.ErrorCodes.INTERNAL_ERROR
+                    )
+                    await self._flush()
                 idle = len(self.streams) == 0 or all(
                     stream.idle for stream in self.streams.values()
                 )
